@@ -602,7 +602,9 @@ func H_C15_pool() {
 				vfPrune()
 			}
 			bs.BufferWriter().WriteBytes(vfBytes(3))
-			vfAssert(bs.Flush(false) == nil, "C15.response-flush")
+			// (the queue towards the client holds two elements: a third undelivered answer is refused)
+			rerr := bs.Flush(false)
+			vfAssert(rerr == nil || rerr == ErrQueueFull, "C15.response-flush")
 		case 4:
 			w.deliverBA()
 		case 5: // the caller reads the response
